@@ -23,6 +23,7 @@ PROPS = {
     "C06": "vp.harness.c06_serdes",
     "C07": "vp.harness.c07_deser",
     "C08": "vp.harness.c08_offsets",
+    "C09": "vp.harness.c09_refs",
     "C11": "vp.harness.c11_xdef",
     "C12": "vp.harness.c12_const",
     "C13": "vp.harness.c13_robust",
